@@ -34,6 +34,7 @@ import (
 type Env struct {
 	Dir    string
 	DBPath string
+	DSN    string
 	SQL    *sql.DB
 	Client *ent.Client
 	Faults *faults.Set
@@ -86,9 +87,11 @@ func quietLogging() {
 	}
 }
 
+func DSNFor(path string) string { return db.SQLiteDSN(path, true, false) }
+
 // OpenDB opens (creating and migrating if needed) the SQLite database at path.
 func OpenDB(path string) (*sql.DB, *ent.Client, error) {
-	dsn := db.SQLiteDSN(path, true, false)
+	dsn := DSNFor(path)
 	conn, err := sql.Open(WrappedDriverName, dsn)
 	if err != nil {
 		return nil, nil, err
@@ -116,6 +119,7 @@ func NewEnv(withServer bool) (*Env, error) {
 		return nil, err
 	}
 	e := &Env{Dir: dir, DBPath: filepath.Join(dir, "db"), T0: time.Now()}
+	e.DSN = DSNFor(e.DBPath)
 	e.SQL, e.Client, err = OpenDB(e.DBPath)
 	if err != nil {
 		os.RemoveAll(dir)
@@ -135,6 +139,11 @@ func (e *Env) startServer() error {
 	if err != nil {
 		return err
 	}
+	return e.startServerOn(port)
+}
+
+func (e *Env) startServerOn(port int) error {
+	var err error
 	e.Port = port
 	e.Faults = faults.NewSet(fmt.Sprintf("verif%d", port))
 	svc := mbgrpc.NewGrpcService(port, 0, nil, e.Faults,
@@ -181,6 +190,7 @@ func (e *Env) Close() {
 	if e.Client != nil {
 		e.Client.Close()
 	}
+	SetDBHook(e.DSN, nil)
 	os.RemoveAll(e.Dir)
 }
 
